@@ -532,7 +532,7 @@ fn c14(tier: &str, thorough: bool) -> i32 {
                 }
             }
             configs += cases.len() as u64;
-            let cap: u64 = if thorough { 30_000 } else { 400 };
+            let cap: u64 = if thorough { 100_000 } else { 4_000 };
             use rayon::prelude::*;
             // per configuration: unbounded first; if the cap is hit fall back to preemption bound 2, then 1
             let results: Vec<(u64, u64, Option<(Option<usize>, u64, usize)>)> = cases
@@ -541,7 +541,7 @@ fn c14(tier: &str, thorough: bool) -> i32 {
                     let mut sch = 0u64;
                     let mut stp = 0u64;
                     let mut done = None;
-                    let bounds: &[Option<usize>] = if thorough { &[None, Some(3), Some(2), Some(1), Some(0)] } else { &[None, Some(1), Some(0)] };
+                    let bounds: &[Option<usize>] = &[None, Some(3), Some(2), Some(1), Some(0)];
                     for &bound in bounds {
                         let st = explore_config(ctx, case, &image, bound, cap);
                         sch += st.schedules;
@@ -975,8 +975,9 @@ pub fn replay(path: &str) -> i32 {
             let choices: Vec<usize> = serde_json::from_value(case["choices"].clone()).unwrap_or_default();
             let image = crate::e6::image_for(c.version);
             println!("replaying schedule {:?} of {:?}", choices, c);
-            let a = crate::e6::run_schedule(&c, &image, &choices);
-            let b = crate::e6::run_schedule(&c, &image, &choices);
+            let pool = crate::e6::Pool::new(c.readers.len());
+            let a = crate::e6::run_schedule(&c, &image, &choices, &pool);
+            let b = crate::e6::run_schedule(&c, &image, &choices, &pool);
             if a.deadlock != b.deadlock || a.reader_results.iter().map(|r| r.len()).collect::<Vec<_>>() != b.reader_results.iter().map(|r| r.len()).collect::<Vec<_>>() {
                 eprintln!("replay is not deterministic");
                 return 2;
